@@ -89,7 +89,7 @@ class LayerOpacity(Opacity):
 def reset_caches():
     from taurex.cache import OpacityCache, CIACache, GlobalCache
     OpacityCache().clear_cache()
-    CIACache().clear_cache()
+    CIACache().cia_dict = {}
     try:
         from taurex.cache.ktablecache import KTableCache
         KTableCache().clear_cache()
